@@ -116,6 +116,8 @@ class VMDK(AlignedStream):
 
         sector = offset // SECTOR_SIZE
         count = (length + SECTOR_SIZE - 1) // SECTOR_SIZE
+        # The aligned stream may request past the end of the disk, there are no extents there
+        count = min(count, self.sector_count - sector)
 
         return self.read_sectors(sector, count)
 
